@@ -153,9 +153,13 @@ def fresh_regen(path):
 
 
 def observe(a, path, ref, res, extra=None, want_regen=True):
+    # the raw files and a fresh read-only open come FIRST: a read through a live 'r+' handle can
+    # change the files (np.memmap pads a data file that is too short)
+    files = read_files(path)
+    fresh = guarded_view(lambda: darr.Array(path))
     o = dict(res=res, live=guarded_view(lambda: a),
-             fresh=guarded_view(lambda: darr.Array(path)),
-             files=read_files(path),
+             fresh=fresh,
+             files=files,
              ref=dict(shape=list(ref.shape), dtype=dtype_info(ref.dtype),
                       data=np.ascontiguousarray(ref).tobytes().hex()))
     if want_regen:
